@@ -152,6 +152,10 @@ class Ev:
       return None
     if len(vals) == 1:
       return vals[0][1]
+    # a path whose value the algebra does not model makes the whole result opaque
+    if any(isinstance(v, Opaque) for _, v in vals):
+      return Opaque('|'.join(sorted({getattr(v, 'text', '?') for _, v in vals
+                                     if isinstance(v, Opaque)})))
     # merge sets / tuples of sets path-wise
     first = vals[0][1]
     if isinstance(first, SetV):
